@@ -703,6 +703,84 @@ def _ifexp_statements(fn):
     return k
 
 
+def _inline_nested_expression_functions(fn):
+    """a local function whose body is a single `return <expr>` (docstring allowed), that is only ever *called* (never passed around)
+    and whose free variables are not re-bound between its definition and... (they are read at call time, like the inlined text):
+    calls are replaced by the expression with the parameters substituted, and the definition is dropped."""
+    import copy
+    k = 0
+    for node in list(ast.walk(fn)):
+        for b in _blocks_of(node):
+            for st in list(b):
+                if not isinstance(st, ast.FunctionDef) or st is fn or st.decorator_list or st.args.vararg or st.args.kwarg or st.args.kwonlyargs:
+                    continue
+                body = [x for x in st.body if not (isinstance(x, ast.Expr) and isinstance(x.value, ast.Constant))]
+                if len(body) != 1 or not isinstance(body[0], ast.Return) or body[0].value is None:
+                    continue
+                name = st.name
+                refs = [n for n in ast.walk(fn) if isinstance(n, ast.Name) and n.id == name]
+                calls = [n for n in ast.walk(fn) if isinstance(n, ast.Call) and isinstance(n.func, ast.Name) and n.func.id == name]
+                if not calls or len(refs) != len(calls) or any(c.keywords or any(isinstance(a, ast.Starred) for a in c.args) for c in calls):
+                    continue
+                ps = [a.arg for a in st.args.args]
+                if any(len(c.args) != len(ps) for c in calls) or any(isinstance(n, ast.Name) and n.id == name for n in ast.walk(st)):
+                    continue
+                expr = body[0].value
+
+                class R(ast.NodeTransformer):
+                    def visit_Call(self, n):
+                        self.generic_visit(n)
+                        if isinstance(n.func, ast.Name) and n.func.id == name:
+                            bound = dict(zip(ps, n.args))
+
+                            class S(ast.NodeTransformer):
+                                def visit_Name(self, m_):
+                                    return copy.deepcopy(bound[m_.id]) if m_.id in bound and isinstance(m_.ctx, ast.Load) else m_
+                            return ast.copy_location(S().visit(copy.deepcopy(expr)), n)
+                        return n
+                b.remove(st)
+                if not b:
+                    b.append(ast.Pass())
+                R().visit(fn)
+                k += 1
+    if k:
+        ast.fix_missing_locations(fn)
+    return k
+
+
+def _unroll_literal_loops(fn):
+    """`for x in (a, b): BODY` over a literal tuple/list of at most four side-effect-free elements, with a plain name as target and no
+    break/continue/else: the body is repeated once per element with the element substituted for x."""
+    import copy
+    k = 0
+    for node in list(ast.walk(fn)):
+        for b in _blocks_of(node):
+            i = 0
+            while i < len(b):
+                st = b[i]
+                if isinstance(st, ast.For) and not st.orelse and isinstance(st.target, ast.Name) and isinstance(st.iter, (ast.Tuple, ast.List)) \
+                        and 1 <= len(st.iter.elts) <= 4 and all(_is_pure(e) and not isinstance(e, ast.Starred) for e in st.iter.elts) \
+                        and not any(isinstance(n, (ast.Break, ast.Continue)) for x in st.body for n in ast.walk(x)) \
+                        and not any(isinstance(n, ast.Name) and n.id == st.target.id and isinstance(n.ctx, ast.Store) for x in st.body for n in ast.walk(x)) \
+                        and not any(isinstance(n, ast.Name) and n.id == st.target.id for s2 in b[i + 1:] for n in ast.walk(s2)):
+                    t = st.target.id
+                    out = []
+                    for e in st.iter.elts:
+                        class S(ast.NodeTransformer):
+                            def visit_Name(self, n):
+                                return copy.deepcopy(e) if n.id == t and isinstance(n.ctx, ast.Load) else n
+                        for x in st.body:
+                            out.append(S().visit(copy.deepcopy(x)))
+                    b[i:i + 1] = out
+                    k += 1
+                    i += len(out)
+                    continue
+                i += 1
+    if k:
+        ast.fix_missing_locations(fn)
+    return k
+
+
 def _find_fn(m, qual):
     if "." in qual:
         cn, mn = qual.split(".", 1)
@@ -787,6 +865,17 @@ def canonicalise(repo):
                 k = _fold_constants(fn)
                 if k:
                     done.append((m.name, fn.name, "<constants folded>", k))
+    for m in repo.modules.values():
+        for st in m.tree.body:
+            fns = [st] if isinstance(st, (ast.FunctionDef, ast.AsyncFunctionDef)) else \
+                [x for x in st.body if isinstance(x, (ast.FunctionDef, ast.AsyncFunctionDef))] if isinstance(st, ast.ClassDef) else []
+            for fn in fns:
+                k = _inline_nested_expression_functions(fn)
+                if k:
+                    done.append((m.name, fn.name, "<local expression functions inlined>", k))
+                k = _unroll_literal_loops(fn)
+                if k:
+                    done.append((m.name, fn.name, "<loops over literal tuples unrolled>", k))
     for m in repo.modules.values():
         for fn in ast.walk(m.tree):
             if isinstance(fn, (ast.FunctionDef, ast.AsyncFunctionDef)):
